@@ -149,6 +149,10 @@ func solveObligation(o *Obligation, dir string, timeoutS int, all bool) {
 	if all {
 		seen := map[string]bool{}
 		for _, r := range results {
+			// "sat" on the slice (fewer hypotheses) says nothing about the full query
+			if r.verdict == "sat" && strings.Contains(r.solver, "/sliced") {
+				continue
+			}
 			if r.verdict == "sat" || r.verdict == "unsat" {
 				seen[r.verdict] = true
 			}
@@ -297,7 +301,9 @@ func solveAll(obls []*Obligation, dir string, timeoutS int, all bool, par int) {
 		go func(o *Obligation) {
 			defer wg.Done()
 			defer func() { <-sem }()
-			solveObligation(o, dir, timeoutS, all)
+			// support obligations (callee clauses of other properties) are raced; agreement of all solvers is asked of
+			// the property's own obligations
+			solveObligation(o, dir, timeoutS, all && !o.Support)
 		}(o)
 	}
 	wg.Wait()
